@@ -19,6 +19,7 @@ type invocation struct {
 	events         []string
 	ended          string // "ret" if the body returned normally, "" otherwise
 	signalled      bool   // a failure statement was executed
+	checkSkipped   bool   // the invariant check of a Repeat executed a skip statement: the test case is not a valid one
 }
 
 type interp struct {
@@ -30,6 +31,7 @@ type interp struct {
 	hook        func(in *interp, t *rapid.T) // called at the start of every invocation
 	firstCtx    map[*rapid.T]context.Context
 	customDepth int // > 0 while a Custom function runs (its inner *T does not log draws)
+	inCheck     int // > 0 while the invariant check of a Repeat runs
 }
 
 func newInterp(prog *SX, strAll bool) *interp {
@@ -141,6 +143,9 @@ func (in *interp) stmts(t *rapid.T, env map[string]any, list []*SX) any {
 				m[0] = 1
 			})
 		case "skip":
+			if in.inCheck > 0 && in.customDepth == 0 && in.cur != nil {
+				in.cur.checkSkipped = true
+			}
 			t.Skip("skip")
 		case "emit":
 			in.ev("u" + s.List[1].Atom)
@@ -162,6 +167,20 @@ func (in *interp) stmts(t *rapid.T, env map[string]any, list []*SX) any {
 			n := atoi(s.List[1])
 			v := env[s.List[2].Atom]
 			callSite(n, func() { panic(fmt.Sprintf("pv%d_%v", n, v)) })
+		case "deep": // the body runs at a call depth taken from a drawn value (monitors only): recursion from one call site
+			depth := int(toBig(env[s.List[1].Atom]).Int64())
+			body := s.List[2:]
+			var descend func(k int) any
+			descend = func(k int) any {
+				if k <= 0 {
+					return in.stmts(t, env, body)
+				}
+				r := descend(k - 1)
+				return r
+			}
+			if r := descend(depth); r != nil {
+				return r
+			}
 		case "defer": // a deferred function of the user's code (monitors only: the model has no such statement)
 			body := s.List[1:]
 			defer func() { in.stmts(t, env, body) }()
@@ -190,7 +209,11 @@ func (in *interp) stmts(t *rapid.T, env map[string]any, list []*SX) any {
 				body := a.List[1:]
 				switch a.Head() {
 				case "check":
-					actions[""] = func(t *rapid.T) { in.stmts(t, env, body) }
+					actions[""] = func(t *rapid.T) {
+						in.inCheck++
+						defer func() { in.inCheck-- }()
+						in.stmts(t, env, body)
+					}
 				case "act":
 					name := fmt.Sprintf("a%02d", k)
 					k++
